@@ -191,6 +191,7 @@ func redisVariant(sg structGen, name string, mk func() Machine) structGen {
 var structGensRedis = []structGen{
 	redisVariant(structGens[0], "cms-redis", func() Machine { return &cmsRedis{} }),
 	redisVariant(structGens[2], "hll-redis", func() Machine { return &hllRedis{} }),
+	redisVariant(structGens[1], "bloom-redis", func() Machine { return &bloomRedis{} }),
 }
 
 // pairedQueries interleaves the same queries on instances a and b (a first).
@@ -504,7 +505,20 @@ func monitorPersist(sg structGen, prop string) Monitor {
 			}
 			switch prop {
 			case "C09":
-				out = append(out, MonViolation{name + "/attach/handles-disagree",
+				q9 := ""
+				for _, op2 := range ops[:step] {
+					if op2.L[0].I() == opImport {
+						q9 = "/after-import"
+					}
+				}
+				if q9 == "" && name == "bloom-redis" {
+					for _, op2 := range ops[:step] {
+						if op2.L[0].I() == blFromBits && op2.L[1].String() == "0" {
+							q9 = "/from-bitset"
+						}
+					}
+				}
+				out = append(out, MonViolation{name + "/attach/handles-disagree" + q9,
 					fmt.Sprintf("%s answers %s through the creating handle and %s through the re-attached one", sg.opName(ops[step]), trunc(va), trunc(vb)), step})
 			case "C11", "C10":
 				out = append(out, MonViolation{name + "/query/reloaded-answers-differ" + qualQ,
